@@ -172,4 +172,33 @@ theorem repr_denotes_amount
       obtain ⟨s', rfl⟩ : ∃ s', s = s' + 2 := ⟨s - 2, by omega⟩
       rw [show s' + 2 - 1 = s' + 1 by omega, pow_succ] at hmDeq
       omega
+/-- the rational reading of a numeral and the integer reading used by `Spec.Rpc.denotesSat` (and
+    executed by `Model.Rpc.satoshisDenoted` on the emitted text) agree -/
+theorem decVal_iff_denotes (m : ℕ) (p : ℤ) (a : ℕ) :
+    decVal m p = (a : ℚ) / 10 ^ 8 ↔ Spec.Rpc.denotesSat false m p (a : ℤ) := by
+  unfold Spec.Rpc.denotesSat
+  simp only [Int.natAbs_natCast, Bool.false_eq_true, imp_false, not_lt, Int.natCast_nonneg, implies_true,
+    and_true]
+  by_cases hp : 0 ≤ p + 8
+  · rw [if_pos hp]
+    obtain ⟨j, hj⟩ : ∃ j : ℕ, p = (j : ℤ) - 8 := ⟨(p + 8).toNat, by omega⟩
+    have hjn : (p + 8).toNat = j := by omega
+    rw [hjn, hj, decVal_ge, amount_ge]
+    constructor
+    · intro h
+      have h10 : ((10 ^ 8 : ℕ) : ℚ) ≠ 0 := by positivity
+      have := (div_left_inj' h10).mp h
+      exact_mod_cast this
+    · intro h; rw [h]
+  · rw [if_neg hp]
+    obtain ⟨j, hj⟩ : ∃ j : ℕ, p = -8 - (j : ℤ) := ⟨(-8 - p).toNat, by omega⟩
+    have hjn : (-(p + 8)).toNat = j := by omega
+    rw [hjn, hj, decVal_lt, amount_lt a j]
+    constructor
+    · intro h
+      have h10 : ((10 ^ (8 + j) : ℕ) : ℚ) ≠ 0 := by positivity
+      have := (div_left_inj' h10).mp h
+      exact_mod_cast this
+    · intro h; rw [h]
+
 end BtcVerif.Rpc
